@@ -88,7 +88,7 @@ def families(tier):
         add('c09.redispatch', shape, {'A': {}}, hs, [('disp', 'A', 'P', 'await'), ('disp', 'A', 'X', 'ff')])
     # the grammar-generated corpus shared by the bus properties (vsched/gen.py), judged by this property's oracle
     from .. import gen
-    out += gen.family('C09', tier, timeouts=(None, 0.5))
+    out += gen.family('C09', tier, timeouts=(None, 0.5, 'none') if tier == 'thorough' else (None, 'none'))
     return out
 
 
